@@ -38,6 +38,7 @@ pub fn main(args: &[String]) {
             let seed: u64 = arg_after(args, "--seed").map(|s| s.parse().unwrap()).unwrap_or(0);
             let muts: usize = arg_after(args, "--mutations").map(|s| s.parse().unwrap()).unwrap_or(4);
             let per_field: usize = arg_after(args, "--field-stride").map(|s| s.parse().unwrap()).unwrap_or(3);
+            let wide_stride: usize = arg_after(args, "--wide-stride").map(|s| s.parse().unwrap()).unwrap_or(7).max(1);
             let mut rng = Rng::new(seed ^ 0xc02);
             for (name, bytes) in corpus(2_000_000) {
                 let d1 = judge(&name, "as is", &bytes, 2, &mut ev, &mut rep);
@@ -80,6 +81,26 @@ pub fn main(args: &[String]) {
                                     b[*p + 2..*p + 4].copy_from_slice(&v.to_be_bytes());
                                 }
                                 judge(&name, &format!("u16 at {p} = {a:#x}{}", b2.map(|v| format!(", next = {v:#x}")).unwrap_or_default()), &b, 1, &mut ev, &mut rep);
+                            }
+                        }
+                    }
+                }
+                // 32-bit index fields of the colour table (layer indices, variation index bases, offsets): every 4 bytes at
+                // every even offset set to 0xFFFFFFFF / 0xFFFFFFFE, sampled by --wide-stride
+                if bytes.len() < 400_000 {
+                    if let Ok(f) = read_fonts::FontRef::new(&bytes) {
+                        if let Some(d) = f.data_for_tag(font_types::Tag::new(b"COLR")) {
+                            let off = d.as_bytes().as_ptr() as usize - bytes.as_ptr() as usize;
+                            for p in (0..d.len().saturating_sub(4).min(8000)).step_by(2) {
+                                for (i, v) in [0xFFFF_FFFFu32, 0xFFFF_FFFE].into_iter().enumerate() {
+                                    if (p / 2 + i + seed as usize) % wide_stride != 0 {
+                                        continue;
+                                    }
+                                    let mut b = bytes.clone();
+                                    b[off + p..off + p + 4].copy_from_slice(&v.to_be_bytes());
+                                    judge(&name, &format!("COLR u32 at {p} = {v:#x}"), &b, 1, &mut ev, &mut rep);
+                                    rep.add("wide_index_mutations", 1);
+                                }
                             }
                         }
                     }
@@ -131,6 +152,17 @@ pub fn main(args: &[String]) {
             let t = std::time::Instant::now();
             let r = crate::vm::draw_composite(&font, 0);
             println!("depth {depth} fan {fan}: {r:?} in {:?}", t.elapsed());
+        }
+        Some("file") => {
+            // drive one font file as it is (run with FV_LOUD=1 RUST_BACKTRACE=1 to see where a panic comes from)
+            let b = std::fs::read(arg_after(args, "--font").unwrap()).unwrap();
+            let r = match drive_bytes(&b, 1, 120) {
+                Verdict::Done { calls, .. } => format!("value ({calls} calls)"),
+                Verdict::Panic(p) => format!("panic: {p}"),
+                Verdict::Hang => "no result within 120 s".to_string(),
+            };
+            println!("{r}");
+            std::process::exit(0);
         }
         Some("repro") => {
             repro(&arg_after(args, "--font").unwrap(), arg_after(args, "--pos").unwrap().parse().unwrap(), arg_after(args, "--val").unwrap().parse().unwrap(), 1);
